@@ -162,8 +162,12 @@ pub fn connect_and_run_v(w: &mut World, spec: ConnectSpec, connack: &rc::Connack
             match way {
                 0 | 1 => w.reader.feed(vec![0x30, 0x0a, 0x00]),
                 2..=5 => {
+                    // two messages in one read: the connection dies at the first PUBACK while the
+                    // second message is still buffered behind it
                     w.writer.set_fault(crate::mockio::WriteFault::ErrAt(w.wire_len() + (way as usize - 2)));
-                    w.reader.feed(publish(1, 5));
+                    let mut both = publish(1, 5);
+                    both.extend(publish(1, 8));
+                    w.reader.feed(both);
                 }
                 6 => {
                     w.reader.feed(publish(2, 6));
